@@ -19,6 +19,8 @@ def build_obs(tier, tables=None):
     if tier != "quick":
         obs += [o for o in parse_step_obs(["CHK_C01"], "c01n3", states=range(0, 10), callbacks=False, tier=tier, ntok=3)]
     # the observation layer: 'every option read back through the getters holds exactly the values': readers vs stored state
+    obs.append(Ob("c01-init-section-flags", "alloc_step.c", ["-DMODE=11", "-DNV=1", "-DFAIL_AT=-1", "-DINIT_SEC"], unwind=8, checks="none", must_reach=("end of harness", "success path"), timeout=300,
+                  params={"function": "cfg_init", "schema": "int + single section", "context_flags": "NOCASE|IGNORE_UNKNOWN"}))
     from props.parsecommon import _ob, pathname_obs
     obs.append(_ob("c01", ["CHK_C01"], 5, "SECKV", 0, 0, 0, extra=("KV_SUBOPTS",)))  # free-form section with declared sub-options
     obs += pathname_obs(["CHK_C01"], "c01")  # item names that are path keys ("c|X")
